@@ -185,6 +185,11 @@ func Quiescent() (bool, string) {
 		if i := strings.Index(st, ","); i >= 0 {
 			st = st[:i]
 		}
+		if st == "sleep" && strings.Contains(b, "DefaultExecHandler") {
+			// the interpreter's kill timer of an external command that was interrupted: it sleeps for the kill
+			// timeout and then signals a process that is long gone; it never touches the executor again
+			continue
+		}
 		if !parked[st] {
 			return false, st
 		}
